@@ -580,3 +580,115 @@ def run(ctx):
     srcs = [norm(n) for n in ast.walk(nm.tree) if isinstance(n, ast.Call) and norm(n.func) == "sorted" and "duid" in norm(n)]
     ok = bool(srcs)
     ctx.ob("C02.e", NAMER, "disambiguate_signals_with_duid", "final tie-break sorts by duid", ok, "" if ok else "no sorted(..., key=duid) in namer", nm.tree)
+    _hierarchical_names(ctx, nm)
+    _namespace_histories(ctx, nm)
+
+
+def _hierarchical_names(ctx, nm):
+    """The hierarchical naming pass (_build_signal_name_dict_for_group and everything it calls, _HierarchyNode included)
+    interpreted exactly by the checker (lxs/pyconst.py) on model designs: signals are opaque objects with a back-trace of (name,
+    number) steps, a duid and no relation.  The back-trace numbers come from Migen's process-wide tracer counters, so the same design
+    elaborated later in one process carries larger numbers in the same order: the names must not change under such an
+    order-preserving renumbering, and must be pairwise distinct within the group."""
+    from .. import pyconst
+    from ..pyconst import Key
+    ctx.rule("C02.f", "hierarchical names depend on the order of the tracer numbers only (not on their values) and are pairwise distinct "
+                      "within a group: the naming pass interpreted on model designs under order-preserving renumberings", min_sites=5)
+    funcs = {f.name: f for f in nm.tree.body if isinstance(f, ast.FunctionDef)}
+    classes = {c.name: c for c in nm.tree.body if isinstance(c, ast.ClassDef)}
+    ctx.need("_build_signal_name_dict_for_group" in funcs, "namer.py: _build_signal_name_dict_for_group vanished")
+
+    def design(kind, f):
+        """f renumbers the tracer numbers"""
+        def sig(i, bt):
+            return Key(duid=100 + i, backtrace=[(n_, f(k)) for n_, k in bt], related=None, name_override=None, tag=f"s{i}")
+        if kind == "two cores":
+            return [sig(0, [("top", 0), ("core", 0), ("x", 0)]), sig(1, [("top", 0), ("core", 0), ("y", 0)]),
+                    sig(2, [("top", 0), ("core", 1), ("x", 0)]), sig(3, [("top", 0), ("core", 1), ("y", 0)]), sig(4, [("top", 0), ("z", 0)])]
+        if kind == "three cores, nested banks":
+            out, i = [], 0
+            for c in range(3):
+                for b in range(2):
+                    for leaf in ("we", "dat"):
+                        out.append(sig(i, [("soc", 0), ("core", c), ("bank", 2 * c + b), (leaf, 0)]))
+                        i += 1
+            return out
+        if kind == "same name twice in one module":
+            return [sig(0, [("top", 0), ("fifo", 0), ("level", 0)]), sig(1, [("top", 0), ("fifo", 0), ("level", 1)]),
+                    sig(2, [("top", 0), ("fifo", 0), ("din", 0)])]
+        if kind == "numbered leaves":
+            return [sig(i, [("top", 0), ("port", i)]) for i in range(4)] + [sig(4, [("top", 0), ("clk", 0)])]
+        return [sig(0, [("top", 0), ("x", 0)])]
+    for kind in ("two cores", "three cores, nested banks", "same name twice in one module", "numbered leaves", "single signal"):
+        names = []
+        for f in (lambda k: k, lambda k: 3 * k + 4, lambda k: k * k + 17):
+            sigs = design(kind, f)
+            try:
+                r = pyconst.call(funcs["_build_signal_name_dict_for_group"], {"group_number": 0, "signals": sigs}, funcs=funcs, classes=classes)
+            except pyconst.Unknowable as ex:
+                ctx.need(False, f"the naming pass cannot be interpreted on a model design ({ex})")
+            ctx.analysed["paths"] += 1
+            names.append([r[1].get(s_) for s_ in sigs] if r[0] == "return" and isinstance(r[1], dict) else None)
+        bad = None
+        if any(n is None or any(not isinstance(x, str) for x in n) for n in names):
+            bad = f"the naming pass does not return a name for every signal: {names[0]}"
+        elif len(set(names[0])) != len(names[0]):
+            bad = f"names are not pairwise distinct: {names[0]}"
+        elif names[1] != names[0] or names[2] != names[0]:
+            other = names[1] if names[1] != names[0] else names[2]
+            bad = f"tracer numbers 0, 1, 2, .. give {names[0]}; the same design with larger numbers in the same order gives {other}: the " \
+                  f"identifiers depend on how many objects were created before in the process (two runs over one design differ)"
+        ctx.ob("C02.f", NAMER, "_build_signal_name_dict_for_group", f"{kind}: names distinct and invariant under renumbering", bad is None,
+               bad or "", funcs["_build_signal_name_dict_for_group"])
+
+
+def _namespace_histories(ctx, nm):
+    """SignalNamespace interpreted exactly (a model object whose __init__ / get_name are the class's own) on every order of
+    requests over small sets of signals whose wanted names collide with each other, with generated suffixed names (x, x, x_1, x_2)
+    and with reserved words: the names handed out are pairwise distinct, never a reserved word, and a signal asked twice gets
+    the same name."""
+    import itertools
+    from .. import pyconst
+    from ..pyconst import Key
+    classes = {c.name: c for c in nm.tree.body if isinstance(c, ast.ClassDef)}
+    funcs = {f.name: f for f in nm.tree.body if isinstance(f, ast.FunctionDef)}
+    ctx.need("SignalNamespace" in classes, "namer.py: SignalNamespace vanished")
+    cdef = classes["SignalNamespace"]
+    meth = {f.name: f for f in cdef.body if isinstance(f, ast.FunctionDef)}
+    ctx.need("get_name" in meth and "__init__" in meth, "SignalNamespace: __init__ / get_name vanished")
+    reserved = {"wire", "reg"}
+    pools = [("x", "x", "x_1"), ("x", "x", "x", "x_1"), ("x", "x_1", "x_1", "x"), ("x", "x", "x_2", "x_1"), ("wire", "wire_1", "wire"),
+             ("reg", "x", "reg_1", "x"), ("a", "b", "a")]
+    bad = {"distinct": None, "reserved": None, "stable": None}
+    n_ev = 0
+    for pool in pools:
+        for override in (True, False):
+            for order in sorted(set(itertools.permutations(range(len(pool))))):
+                sigs = [Key(__cls__=("Signal",), duid=i, name_override=(w if override else None), tag=f"s{i}", cd=None) for i, w in enumerate(pool)]
+                me = Key(__cls__=("SignalNamespace",), __classdef__=cdef)
+                try:
+                    r0 = pyconst.call(meth["__init__"], {"self": me, "name_dict": {s_: w for s_, w in zip(sigs, pool)}, "reserved_keywords": set(reserved)},
+                                      funcs=funcs, classes=classes)
+                    got = {}
+                    for k in list(order) + [order[0]]:
+                        r = pyconst.call(meth["get_name"], {"self": me, "sig": sigs[k]}, funcs=funcs, classes=classes)
+                        n_ev += 1
+                        nm_ = r[1] if r[0] == "return" else None
+                        what = f"wanted names {list(pool)} ({'overrides' if override else 'name dictionary'}), asked in the order {list(order)}"
+                        if k in got and got[k] != nm_ and bad["stable"] is None:
+                            bad["stable"] = f"{what}: signal {k} is called `{got[k]}` and then `{nm_}`"
+                        got[k] = nm_
+                    vals = list(got.values())
+                    if (any(not isinstance(v, str) for v in vals) or len(set(vals)) != len(vals)) and bad["distinct"] is None:
+                        bad["distinct"] = f"{what}: names handed out {[got[k] for k in range(len(pool))]}"
+                    if any(v in reserved for v in vals) and bad["reserved"] is None:
+                        bad["reserved"] = f"{what}: a reserved word is handed out: {[got[k] for k in range(len(pool))]}"
+                except pyconst.Unknowable as ex:
+                    ctx.need(False, f"SignalNamespace cannot be interpreted on a model request history ({ex})")
+    ctx.analysed["paths"] += n_ev
+    fn = meth["get_name"]
+    ctx.ob("C02.a", NAMER, "SignalNamespace.get_name", "request histories:present", n_ev >= 400, f"{n_ev} interpreted requests", fn)
+    ctx.ob("C02.a", NAMER, "SignalNamespace.get_name", "histories: names handed out are pairwise distinct", bad["distinct"] is None, bad["distinct"] or "", fn)
+    ctx.ob("C02.a", NAMER, "SignalNamespace.get_name", "histories: no reserved word is handed out", bad["reserved"] is None, bad["reserved"] or "", fn)
+    ctx.ob("C02.a", NAMER, "SignalNamespace.get_name", "histories: a signal keeps its name", bad["stable"] is None, bad["stable"] or "", fn)
+
